@@ -281,6 +281,20 @@ func (fe *FnEnc) run() {
 			if len(entries) == 0 {
 				continue // unreachable
 			}
+			// a latch block with several predecessors is executed once per incoming path, so that
+			// the preservation obligations are stated on un-merged states (simpler queries)
+			if len(entries) > 1 && len(b.Succs) == 1 && b.Succs[0].Dominates(b) && fe.loopOf[b] == nil && smallBlock(b) {
+				for _, e := range entries {
+					si := fe.merge([]edge{e})
+					fe.execBlock(si, b)
+					if !si.dead {
+						if l := fe.loopOf[b.Succs[0]]; l != nil {
+							fe.loopLatch(si, b, l)
+						}
+					}
+				}
+				continue
+			}
 			st = fe.merge(entries)
 		}
 		if l := fe.loopOf[b]; l != nil {
@@ -374,8 +388,7 @@ func (fe *FnEnc) initEntry(st *State) {
 		env.pre = true
 		for i := range fe.contract.Requires {
 			cl := &fe.contract.Requires[i]
-			t := fe.trBool(cl.E, env)
-			fe.emit("(assert " + t.S + ")")
+			fe.assumeClause(st, "pre."+cl.Label, cl.E, env)
 		}
 		o := fe.addObl(st, "cover", "pre", []string{"C15"}, tFalse, fn.Pos())
 		if o != nil {
@@ -406,7 +419,20 @@ func (fe *FnEnc) loopHead(st *State, l *Loop) {
 		for i := range l.spec.Invs {
 			cl := &l.spec.Invs[i]
 			o := fe.addOblExpr(st, fmt.Sprintf("loop%d.inv", l.ord), cl.Label+".init", fe.propsFor(cl), cl.E, env, l.header.Instrs[0].Pos())
-			_ = o
+			if cl.Uses != nil {
+				// establishing the invariant: the same-named facts of the earlier loops (and earlier cut points)
+				o.Uses = []string{}
+				for _, u := range append([]string{cl.Label}, cl.Uses...) {
+					if strings.Contains(u, ":") || strings.HasPrefix(u, "assert.") {
+						o.Uses = append(o.Uses, resolveUses([]string{u}, 0, "")...)
+						continue
+					}
+					for m := 1; m < l.ord; m++ {
+						o.Uses = append(o.Uses, fmt.Sprintf("L%d.%s", m, u))
+					}
+				}
+				o.Uses = append(o.Uses, resolveUses(cl.InitUses, 0, "")...)
+			}
 		}
 	}
 	// havoc what the body may write
@@ -444,7 +470,7 @@ func (fe *FnEnc) loopHead(st *State, l *Loop) {
 	if l.spec != nil {
 		for i := range l.spec.Invs {
 			cl := &l.spec.Invs[i]
-			fe.assumeFlagged(st, fmt.Sprintf("L%d.%s", l.ord, cl.Label), fe.trBool(cl.E, env))
+			fe.assumeClause(st, fmt.Sprintf("L%d.%s", l.ord, cl.Label), cl.E, env)
 		}
 		if l.spec.Decr != nil {
 			v := fe.define("variant", fe.trVal(l.spec.Decr, env).T)
@@ -1338,4 +1364,18 @@ func sortedValues(m map[ssa.Value]bool) []ssa.Value {
 	}
 	sort.Slice(out, func(i, j int) bool { return valueOrder(out[i]) < valueOrder(out[j]) })
 	return out
+}
+
+// smallBlock: straight-line code without calls (safe to execute once per predecessor)
+func smallBlock(b *ssa.BasicBlock) bool {
+	if len(b.Instrs) > 12 {
+		return false
+	}
+	for _, ins := range b.Instrs {
+		switch ins.(type) {
+		case *ssa.Call, *ssa.Defer, *ssa.RunDefers, *ssa.Go, *ssa.Alloc, *ssa.MakeMap, *ssa.MakeSlice, *ssa.MakeClosure, *ssa.MakeInterface:
+			return false
+		}
+	}
+	return true
 }
